@@ -75,15 +75,17 @@ let run_crash (toks : string list) : string =
         | Some v -> k ^ "=" ^ hx v | None -> k ^ "=nf") names in
     let outs = outs @ [Printf.sprintf "list=%d" (L.length (Storage.db_list d'))] in
     String.concat " " (L.sort compare outs)
-  | "crash" :: olds :: sets :: i :: _ ->
+  | "crash" :: olds :: sets :: i :: rest ->
     let parse s = if s = "-" then [] else L.map (fun kv -> match split_on ':' kv with
         | [k; v] -> (unhex k, unhex v) | _ -> failwith "bad kv") (split_on ',' s) in
     let olds = parse olds and sets = parse sets in
+    let thens = (match rest with [_; t] -> parse t | _ -> []) in
     let d0 = L.fold_left (fun d (k, v) -> Storage.st_set true d k v) [] olds in
     let ops = Storage.multi_ops sets in
     let rec firstn k l = if k = 0 then [] else match l with [] -> [] | x :: r -> x :: firstn (k-1) r in
     let d' = Storage.apply_ops d0 (firstn (int_of_string i) ops) in
-    let keys = L.sort_uniq compare (L.map (fun (k, _) -> hx k) (olds @ sets)) in
+    let d' = L.fold_left (fun d (k, v) -> Storage.st_set true d k v) d' thens in
+    let keys = L.sort_uniq compare (L.map (fun (k, _) -> hx k) (olds @ sets @ thens)) in
     String.concat " " (L.sort compare (L.map (fun k -> match Storage.st_get d' (unhex k) with
         | Some v -> k ^ "=" ^ hx v | None -> k ^ "=nf") keys))
   | _ -> "badcase"
